@@ -142,6 +142,7 @@ DoDel(c, st) == Res(RInt(Cardinality(RangeOf(c.ks) \cap DOMAIN st)), Drop(st, Ra
 DoExists(c, st) == Res(RInt(Count(c.ks, LAMBDA k : Has(st, k))), st)                     \* [doc] repeated keys count repeatedly
 TypeName(t) == CASE t = "string" -> <<115, 116, 114, 105, 110, 103>> [] t = "list" -> <<108, 105, 115, 116>>
                  [] t = "set" -> <<115, 101, 116>> [] t = "hash" -> <<104, 97, 115, 104>> [] t = "zset" -> <<122, 115, 101, 116>>
+                 [] OTHER -> <<63>>      \* (an adopted observed state may hold a key of no known type: judged at the step that produced it)
 DoType(c, st) == Res(RSimple(IF Has(st, c.k) THEN TypeName(st[c.k].t) ELSE <<110, 111, 110, 101>>), st)
 
 (* EXPIRE / PEXPIRE key t [NX|XX|GT|LT]; c.ms = relative time in ms (may be <= 0) *)
